@@ -61,8 +61,8 @@ func VsymC18_SingleOwner() {
 		fa := ca.Lease.(*vsymEtcdFacade)
 		// the broker learns of its session's death no later than etcd expires the lease
 		if l := e.leases[fa.lastLease]; fa.lastLease != 0 && l != nil && l.alive {
-			for _, ch := range l.ka {
-				close(ch)
+			for _, k := range l.ka {
+				k.close()
 			}
 			l.ka = nil
 			dying := fa.lastLease
